@@ -16,6 +16,7 @@ type c05Mon struct {
 	cancelled bool
 	calls     int
 	lastEnds  bool // the last callback's outcome ends the reference path
+	skippedAttempts bool // the fallback was entered under cancellation before the budget was used up
 }
 
 // maybeCancel: one symbolic cancellation point per callback invocation (callbacks are atomic for
@@ -75,6 +76,11 @@ func (n *c05Probe) Exec(ctx context.Context, p any) (any, error) {
 			} else {
 				vCover("cancel-in-last-failing-attempt")
 			}
+			if vNondet[bool]("attemptFailsWithTheContextsError") {
+				// the usual way to fail under cancellation: give up and hand back ctx.Err()
+				vCover("attempt-returns-ctx-err")
+				return nil, ctx.Err()
+			}
 		}
 		return nil, vNewErr()
 	}
@@ -86,6 +92,11 @@ func (n *c05Probe) Exec(ctx context.Context, p any) (any, error) {
 func (n *c05Probe) ExecFallback(p any, err error) (any, error) {
 	n.m.calls++
 	was := n.m.cancelled
+	if was && n.execs < n.budget {
+		// attempts were skipped because of the cancellation: the run has been cut short, whatever
+		// the framework goes on to call
+		n.m.skippedAttempts = true
+	}
 	if vNondet[bool]("fbFail") {
 		n.m.lastEnds = true
 		n.m.maybeCancel()
@@ -149,6 +160,11 @@ func (m *c05Mon) finish(err error) {
 	vLog("calls", m.calls)
 	if m.calls == 0 {
 		vFail("no callback ran in a run that was not pre-cancelled")
+	}
+	if m.skippedAttempts {
+		vCover("attempts-skipped-under-cancellation")
+		vAssert(err != nil, "cut-short-run-does-not-report-success")
+		vAssert(err != nil && errors.Is(err, m.ctx.Err()), "cut-short-run-error-matches-ctx-error")
 	}
 	if !m.lastEnds {
 		// the framework stopped before the reference path was complete
